@@ -6,8 +6,8 @@ import kernels, tvlib
 import solverlib as sl
 import compos
 
-GEN_SOURCES = ["skglm/solvers/anderson_cd.py", "skglm/datafits/single_task.py", "skglm/utils/sparse_ops.py", "skglm/solvers/group_bcd.py", "skglm/datafits/group.py"]
-EXTRA_TARGETS = ["Gen/KernCD.vo", "Gen/KernACD.vo", "Gen/DfSingle.vo", "Gen/PenSeparable.vo", "Gen/SparseOps.vo", "Gen/KernBCD.vo", "Gen/DfGroup.vo", "Gen/PenBlock.vo"]
+GEN_SOURCES = ["skglm/solvers/anderson_cd.py", "skglm/datafits/single_task.py", "skglm/utils/sparse_ops.py", "skglm/solvers/group_bcd.py", "skglm/datafits/group.py", "skglm/solvers/prox_newton.py"]
+EXTRA_TARGETS = ["Gen/KernCD.vo", "Gen/KernACD.vo", "Gen/DfSingle.vo", "Gen/PenSeparable.vo", "Gen/SparseOps.vo", "Gen/KernBCD.vo", "Gen/DfGroup.vo", "Gen/PenBlock.vo", "Gen/KernPN.vo"]
 TRUSTED_BASE = [
     "Coq 8.16.1 kernel (coqc); vm_compute only in correspondence files",
     "axioms: Reals (sig_forall_dec, sig_not_dec), functional_extensionality_dep, Classical_Prop.classic",
@@ -29,7 +29,8 @@ def correspondence(tier, rng):
     r = tvlib.run_cases(kc, ["Gen.ProxFuncs", "Gen.PenSeparable", "Gen.SparseOps", "Gen.DfSingle", "Gen.KernCD", "Gen.KernACD"], "C10", shard=25, jobs=16)
     base = dict(cases=len(kc), bad=r["bad"][:10], errors=r["errors"], distribution=dict(kernel_cases=len(kc), sparse=sum("sparse" in c[0] for c in kc)),
                 distinct_nontrivial=len({c[0] for c in kc}), samples=[dict(case=kc[0][0][:300])])
-    return kernels.add_bcd_kernel_corr(base, rng, 140 if tier == "quick" else 840, "C10k")
+    base = kernels.add_bcd_kernel_corr(base, rng, 140 if tier == "quick" else 840, "C10k")
+    return kernels.add_pn_kernel_corr(base, rng, 120 if tier == "quick" else 720, "C10p")
 
 
 def oracle(tier, rng, deep=False):
